@@ -12,6 +12,7 @@ import (
 // The isolated scope is a isolated context scope depended from parent scope. The isolated scope doesn't affect parent.
 type Isolated struct {
 	done     chan struct{}
+	doneOnce sync.Once
 	errors   []error
 	errorsMU sync.Mutex
 	parent   app.ContextScope
@@ -69,9 +70,9 @@ func (scp *Isolated) Kill() {
 
 // Stop stop the scope context without error
 func (scp *Isolated) Stop() {
-	if !scp.IsDone() {
+	scp.doneOnce.Do(func() {
 		close(scp.done)
-	}
+	})
 }
 
 // Err return cumulative error if the scope context contains any error
